@@ -298,6 +298,49 @@ func (g *rng) genAttrs(n int, depth int, legalKeys bool, legalVals bool) []gattr
 	return out
 }
 
+// genWideAttrs: a long list (13..44 members: beyond the length up to which an unstable sort happens to be stable) with
+// distinct integer values, some keys given two or three times far apart, now and then a nil slot or an empty key in
+// between; a third of the time wrapped into one group.
+func (g *rng) genWideAttrs(emptyKeys bool) []gattr {
+	n := 13 + g.intn(32)
+	var out []gattr
+	perm := make([]int, n)
+	for j := range perm {
+		perm[j] = j
+	}
+	for j := n - 1; j > 0; j-- {
+		k := g.intn(j + 1)
+		perm[j], perm[k] = perm[k], perm[j]
+	}
+	val := 1000
+	mk := func(key string) gattr {
+		val++
+		return gattr{key: key, val: gval{kind: "int", goVal: val, tok: fmt.Sprintf("I:%d", val)}}
+	}
+	for _, j := range perm {
+		out = append(out, mk(fmt.Sprintf("w%02d", j)))
+	}
+	for d := 2 + g.intn(3); d > 0; d-- {
+		src := out[g.intn(len(out)/2)].key
+		at := len(out)/2 + g.intn(len(out)-len(out)/2+1)
+		out = append(out[:at], append([]gattr{mk(src)}, out[at:]...)...)
+	}
+	if g.chance(1, 3) {
+		at := 1 + g.intn(len(out)-1)
+		out = append(out[:at], append([]gattr{{nilAttr: true}}, out[at:]...)...)
+	}
+	if emptyKeys && g.chance(1, 3) {
+		// an attribute with the empty key, and a nil slot somewhere after it
+		at := g.intn(len(out))
+		out = append(out[:at], append([]gattr{mk("")}, out[at:]...)...)
+		out = append(out, gattr{nilAttr: true})
+	}
+	if g.chance(1, 3) {
+		return []gattr{{key: "wide", isGroup: true, val: gval{kind: "group", items: out}}}
+	}
+	return out
+}
+
 func attrsTokens(as []gattr) []string {
 	var t []string
 	for _, a := range as {
